@@ -42,8 +42,41 @@ TF = 'chainables.tree_fns'
 
 
 def run(ctx: Ctx):
-  for r in (r1, r2, r3, r4, r5, r6, r7):
+  for r in (r1, r2, r3, r4, r5, r6, r7, r8):
     ctx.guard(r)
+
+
+def ends_have_default(ctx: Ctx, rule: str, modules, floor: int):
+  """`first()` / `last()` / `one()` of a stream is given a default (an empty stream is a legal input)."""
+  repo = ctx.repo
+  n = 0
+  for mod in modules:
+    mi = repo.module(mod)
+    fns = list(mi.functions.values()) + [m_ for c in mi.classes.values() for m_ in c.methods.values()]
+    for fi in fns:
+      for c in walk_no_nested(fi.node):
+        if not (isinstance(c, ast.Call) and unparse(c.func) in ('mit.first', 'mit.last', 'mit.one', 'mit.only',
+                                                                 'more_itertools.first', 'more_itertools.last')):
+          continue
+        n += 1
+        has_default = len(c.args) >= 2 or any(k.arg == 'default' for k in c.keywords)
+        what = f'{fi.qualname}: `{unparse(c.func)}` of a stream has a default for the empty stream'
+        if has_default or unparse(c.func).endswith('only'):
+          ctx.ok(rule, fi, what, c)
+        else:
+          ctx.fail(rule, fi, what,
+                   f'`{unparse(c)[:60]}` in {fi.qualname} raises ValueError ("called on an empty iterable") when the stream is'
+                   ' empty: an empty input is a legal stream — nothing should be emitted / the aggregate of nothing returned',
+                   node=c)
+  ctx.floor(rule, floor, n)
+
+
+def r8(ctx: Ctx):
+  rule = 'R-C19-8'
+  ctx.rule(rule, '"for all sequences of input batch sizes (... empty stream)": re-batching an empty stream emits nothing — where'
+           ' the re-batching code takes the first / last element of its input stream (to count the columns) it passes a'
+           ' default and handles it; a default-less more_itertools.first() raises ValueError for the empty stream')
+  ends_have_default(ctx, rule, (IU,), 2)
 
 
 def _names(fi):
@@ -548,6 +581,8 @@ from mlmverif.selfcheck import B, OK  # noqa: E402
 
 _F = 'utils/iter_utils.py'
 VARIANTS = [
+    B('revert-column-count-from-first-without-default', 'utils/iter_utils.py',
+      "    if (first_batch := mit.first(tuples, None)) is None:\n      return\n", "    first_batch = mit.first(tuples)\n", 'R-C19-8'),
     B('length-test-only-at-flush', 'utils/iter_utils.py',
       '      if not all(batch_sizes[0] == each_size for each_size in batch_sizes):\n        raise ValueError(\n            f\'Hetroegeneous columns number, got {batch_sizes=} does not equal\'\n            f\' {batch_size=}.\'\n        )\n    # Flush the buffer when the batch size is reached.\n    has_batch_sizes = batch_sizes.size and batch_sizes[0]\n    if has_batch_sizes and (batch_sizes[0] >= batch_size or exhausted):\n',
       '    # Flush the buffer when the batch size is reached.\n    has_batch_sizes = batch_sizes.size and batch_sizes[0]\n    if has_batch_sizes and (batch_sizes[0] >= batch_size or exhausted):\n      if not all(batch_sizes[0] == each_size for each_size in batch_sizes):\n        raise ValueError(\n            f\'Hetroegeneous columns number, got {batch_sizes=} does not equal\'\n            f\' {batch_size=}.\'\n        )\n',
